@@ -108,6 +108,15 @@ CHECKS = {
         note="Trusted: the scripted connection mirrors websockets' contract; a second connection_ack is treated as outside the statement.",
         design="4/C13",
     ),
+    "C15": dict(
+        category="exploration",
+        technique="runtime monitoring: differential observation of packages generated with plugin lists vs unplugged (requests in canonical print, acceptance, returned values, evaluated type hints, operation constants, bytes), with identity and marker plugins shipped by the harness to observe hook application order",
+        text="For seeded inputs the unplugged package and packages for subsets/orders of the four bundled plugins, an identity plugin and two marker plugins are generated "
+             "(one fork per generation), loaded and driven with identical calls against the reference server. Requests and acceptance must be the same; ShorterResults must "
+             "return exactly the single top-level field (unchanged when several); ExtractOperations constants must be the operation strings; ClientForwardRefs must keep every "
+             "evaluated annotation; NoReimports must only empty __init__; the identity plugin must change no byte; markers must appear in configuration order on every hook.",
+        note=GEN_NOTE + " Plugin lists are rotated over cases (all 15 subsets, both orders of each pair, reversed full list).",
+        design="4/C15"),
     "C16": dict(
         category="exploration",
         technique="runtime monitoring: the module emitted by the real graphqlschema run is executed in a fresh fork (the .graphql/.gql file parsed back) and the resulting schema object compared with graphql-core's reading of the source, by print_schema and by a structural fact dump",
